@@ -419,6 +419,25 @@ func sellerExec(tr *vh.Transcript, ops []string) {
 					mm.Disconnect(fmt.Errorf("miner gone"))
 				}
 			}
+		case "minerdown2": // two whole miners of c1 disconnect at the same instant (nothing runs in between)
+			var ids []string
+			if ws := w.watcherOf("c1"); ws != nil {
+				full := ws.ContractWatcherSellerV2.stats.fullMiners.ToSlice()
+				sort.Strings(full)
+				for _, id := range full {
+					if w.connected(id) && len(ids) < 2 {
+						ids = append(ids, id)
+					}
+				}
+			}
+			for _, mm := range w.miners {
+				for _, id := range ids {
+					if mm.ID == id {
+						mm.Disconnect(fmt.Errorf("miner gone"))
+					}
+				}
+			}
+			w.pending = append(w.pending, fmt.Sprintf("down2 %s", strings.Join(ids, ",")))
 		case "minerup": // a new miner connects
 			var hr float64
 			fmt.Sscan(m["hr"], &hr)
@@ -814,6 +833,35 @@ func deliveryLateGen(r *vh.Rng) []string {
 		el += step
 	}
 	return ops
+}
+
+// Two serving miners of a contract leave at the same instant while free ones of the same size are connected: both are replaced
+// (the second disconnect event must not be lost while the watcher is busy with the first).
+//
+//	< serving <n>     whole miners working for c1 after each op
+func TestVerifTwoDown(t *testing.T) {
+	tr := vh.OpenTranscript("twodown.impl.txt")
+	defer tr.Close()
+	c := 0
+	for _, cycle := range []int{120, 300} {
+		for _, at := range []int{15, 40, 95} {
+			for _, fleet := range []int{5, 7} {
+				ops := []string{fmt.Sprintf("world hrs=%s cycle=%d acct=1", strings.TrimSuffix(strings.Repeat("1000,", fleet), ","), cycle),
+					fmt.Sprintf("chain c1 state=0 len=%d hr=3000", cycle*4), "startnode",
+					fmt.Sprintf("purchased c1 len=%d hr=3000 payload=v:poolx", cycle*4), fmt.Sprintf("advance %d", at), "minerdown2", "advance 20", "advance 20"}
+				tr.Case(c, "twodown")
+				c++
+				func() {
+					defer func() {
+						if r := recover(); r != nil {
+							tr.Note("bubble-exit: %v", r)
+						}
+					}()
+					synctest.Test(t, func(t *testing.T) { sellerExec(tr, ops) })
+				}()
+			}
+		}
+	}
 }
 
 func TestVerifDelivery(t *testing.T) {
